@@ -29,7 +29,7 @@ Files = Dict[str, str]
 
 SERVICE_EDITS = ["delete", "add", "rename"]
 DOP_EDITS = ["dop-bit-length", "dop-data-type", "dop-compu-category"]
-PARAM_EDITS = ["byte-position", "bit-length", "coded-value", "semantic", "data-type", "linked-dop"]
+PARAM_EDITS = ["byte-position", "byte-position-remove", "byte-position-add", "bit-length", "coded-value", "semantic", "data-type", "linked-dop"]
 MSG_COLLECTIONS = [("REQUESTS", "REQUEST"), ("POS-RESPONSES", "POS-RESPONSE"), ("NEG-RESPONSES", "NEG-RESPONSE")]
 LAYER_TAGS = ["PROTOCOL", "FUNCTIONAL-GROUP", "BASE-VARIANT", "ECU-VARIANT", "ECU-SHARED-DATA"]
 # every parameter kind that links a DOP (odxtools: ParameterWithDOP subclasses)
@@ -142,7 +142,8 @@ def spec_tree() -> Dict[str, Any]:
                      {"kind": "NEG-RESPONSE", "name": "NR_t", "params": [cc("sid", 0x7F, 0), mrp("rq_sid", 1, 0, 1), val("code", "bu8", 2)]}],
             "svcs": [{"name": "svc_a", "request": "RQ_a", "pos": ["PR_a"], "neg": ["NR_t"]},
                      {"name": "svc_b", "request": "RQ_b", "pos": ["PR_b"], "neg": ["NR_t"]}],
-            "comparams": [cp("CP_B", 21), cp("CP_C", 30)]}
+            # CP_C twice: once for protocol TP, once without PROTOCOL-SNREF (two different communication parameters)
+            "comparams": [cp("CP_B", 21), cp("CP_C", 30), {"id": "C18CS.CP_C", "docref": "C18CS", "value": 31}]}
     e1 = {"type": "ECU-VARIANT", "name": "TE1", "parents": [{"layer": "TB", "not_inherited": {"comms": ["svc_b"], "dops": ["bu8alt"]}}],
           "dops": [{"name": "e1u8", "dct": U(8)}, {"name": "e1u16", "dct": U(16)}]}
     e2 = {"type": "ECU-VARIANT", "name": "TE2", "parents": [{"layer": "TB"}],
@@ -241,7 +242,27 @@ def spec_override() -> Dict[str, Any]:
     return {"containers": [{"name": "c18override", "layers": [ob, oe1, oe2]}]}
 
 
+def spec_prefixes(order: Tuple[int, ...]) -> Dict[str, Any]:
+    """Three services whose constant request prefixes are proper prefixes of each other (10 / 1000 / 100000), listed in
+    the given order; a RESERVED parameter ends every prefix."""
+    msgs: List[Dict[str, Any]] = []
+    svcs: List[Dict[str, Any]] = []
+    for n in order:
+        consts = [cc("sid", 0x10, 0, semantic="SERVICE-ID")] + [cc(f"sub{i}", 0, i) for i in range(1, n + 1)]
+        msgs.append({"kind": "REQUEST", "name": f"RQ_p{n}", "params": consts + [{"t": "RESERVED", "name": "rsv", "byte": n + 1, "bits": 8},
+                                                                               cc("tail", 0x40 + n, n + 2)]})
+        msgs.append({"kind": "POS-RESPONSE", "name": f"PR_p{n}", "params": [cc("sid", 0x50, 0), cc("which", n, 1)]})
+        svcs.append({"name": f"p{n}", "request": f"RQ_p{n}", "pos": [f"PR_p{n}"]})
+    return {"containers": [{"name": "c18prefixes", "layers": [{"type": "BASE-VARIANT", "name": "PX", "msgs": msgs, "svcs": svcs}]}]}
+
+
+PREFIX_DBS = {"prefixes_" + "".join(map(str, o)): o for o in ((0, 1, 2), (0, 2, 1), (1, 0, 2), (1, 2, 0), (2, 0, 1), (2, 1, 0))}
+
 GENERATED = {"override": spec_override, "names": spec_names, "flat": spec_flat, "tree": spec_tree, "single": spec_single, "shared": spec_shared}
+
+
+for _n, _o in PREFIX_DBS.items():
+    GENERATED[_n] = (lambda o=_o: spec_prefixes(o))
 
 
 def pdx_files(path: str) -> Files:
@@ -534,6 +555,24 @@ def edit_param(files: Files, edit: str, mid: str, idx: int) -> Tuple[Files, Dict
             raise NotApplicable("parameter has no BYTE-POSITION")
         info["old"], info["new"] = int(bp.text or "0"), int(bp.text or "0") + 1
         bp.text = str(info["new"])
+    elif edit == "byte-position-remove":
+        bp = p.find("BYTE-POSITION")
+        if bp is None:
+            raise NotApplicable("parameter has no BYTE-POSITION")
+        info["old"], info["new"] = int(bp.text or "0"), None
+        p.remove(bp)
+    elif edit == "byte-position-add":
+        if p.find("BYTE-POSITION") is not None:
+            raise NotApplicable("parameter has an explicit BYTE-POSITION already")
+        # the explicit position is the one the parameter has anyway if all its predecessors are byte aligned
+        # integers; else just behind the last explicit position
+        ps = msg.findall("PARAMS/PARAM")
+        k = max([int(text(q, "BYTE-POSITION") or "0") for q in ps[:idx] if q.find("BYTE-POSITION") is not None] + [-1]) + 1 + idx
+        el = ET.Element("BYTE-POSITION")
+        el.text = str(k)
+        pos = max([i for i, c in enumerate(list(p)) if c.tag in ("SHORT-NAME", "LONG-NAME", "DESC")] + [-1]) + 1
+        p.insert(pos, el)
+        info["old"], info["new"] = None, k
     elif edit == "semantic":
         info["old"] = p.get("SEMANTIC")
         info["new"] = (p.get("SEMANTIC") or "") + "C18"
